@@ -68,6 +68,14 @@ def gen():
         raise F.FactError("read_record no longer pushes every parsed record")
     out.append('Definition csv_reader_options : string := "%s".\n' % ";".join(opts))
     out.append("Definition every_record_is_a_row : bool := true.\n")
+    # DictBuilder::read_lexicon hands every file to the same LexiconReader, which only ever pushes to `entries`: the records of
+    # several files are kept in the order the files were read (nothing is cleared, sorted or de-duplicated in between)
+    rl = _norm(F.fn_body(bm, "read_lexicon", "build/mod.rs"))
+    appends = ("DataSource::File(p)=>self.lexicon.read_file(p)," in rl and "DataSource::Data(d)=>self.lexicon.read_bytes(d)," in rl
+               and "self.read_bytes(&map)" in _norm(F.fn_body(lx, "read_file", "build/lexicon.rs"))
+               and not re.search(r"entries\.(clear|sort\w*|dedup\w*|retain|truncate|drain|reverse|swap\w*|insert|remove)\(", _norm(lx))
+               and len(re.findall(r"self\.entries\.push\(", _norm(lx))) == 1)
+    out.append("Definition read_lexicon_appends : bool := %s.\n" % ("true" if appends else "false"))
     # ---- the dictionary half of LatticeBuilder::build_lattice (Model/DictCands.v)
     st = F.strip_comments(F.src("sudachi/src/analysis/stateful_tokenizer.rs"))
     m = re.search(r"impl<'a>\s*LatticeBuilder<'a>\s*\{(.*)", st, flags=re.S)
